@@ -270,7 +270,7 @@ class DensityMatrixEvolution(MatrixData, BasisManaged, Saveable):
 
         """        
 
-        out = numpy.loadtxt(filename)
+        out = numpy.loadtxt(filename, ndmin=2)
         
         N = int(numpy.sqrt(out.shape[1] - 1))
 
